@@ -15,6 +15,13 @@ Static clauses decided here (engines of DESIGN.md §3):
   E7   guards of direct _elements/_indices slot accesses in IO routines (empty containers).
 
 No FEAT3 code is executed: everything is computed from the clang facts of tu/c05_io.cpp.
+
+Before a shape-sensitive rule interprets a function, the function is normalised (lib/norm_c05.py): helpers of the same class / header
+are inlined at statement level (bounded depth), std::copy / fill statements become loops, for / while / lock-step pointer loops become
+`for(i = 0; i < N; ++i)`, switch and if-chains are read as the same decision groups, and the value of a local that is updated under
+conditions - or returned by a pure helper - is a decision tree over canonical conditions that is evaluated per control path.  Whatever
+is not understood after that (a view / cursor / the stream handed to an uninterpreted callee, a pointer cursor into the buffer, an
+unevaluated term) is analysis-incomplete, never a violation.
 """
 import copy
 import re
@@ -568,7 +575,7 @@ class LayoutFn:
         cache = self.fn.facts.__dict__.setdefault("_pure_helper", {})
         key = g.d.get("decl")
         if key not in cache:
-            ok = len(norm_c05._returns(g.body)) >= 2       # single-return helpers are inlined at statement level or rendered as calls
+            ok = len(norm_c05._returns(g.body)) >= 1
             for x in walk(g.body):
                 k_ = x.get("k")
                 if k_ in ("Assign", "For", "While", "Do", "ForRange", "Switch", "Try", "Lambda", "New", "Delete", "Throw") or (k_ == "Un" and x.get("op") in ("++", "--")):
@@ -1699,6 +1706,125 @@ def mode_switch(fn):
     return None
 
 
+def _self_forward(fn, stmts):
+    """the statements of one dispatch group are `this->f(FileMode::X, <own parameters>)` (f = the function itself), optionally followed by
+    break / return -> qualified name of X, else None"""
+    body = [x for x in flat_statements(stmts) if x.get("k") not in ("Break",)]
+    if len(body) == 1 and body[0].get("k") == "Return" and body[0].get("e") is not None:
+        body = [strip_cast(body[0]["e"])]
+    elif len(body) == 2 and body[1].get("k") == "Return" and body[1].get("e") is None:
+        body = body[:1]
+    if len(body) != 1 or body[0].get("k") != "MCall":
+        return None
+    c = body[0]
+    o = strip_cast(c.get("obj")) if c.get("obj") is not None else None
+    if (o is not None and o.get("k") != "This") or (c.get("n") or "") != fn.name or len(c.get("a", [])) != len(fn.params):
+        return None
+    tag = strip_cast(c["a"][0])
+    if tag.get("k") != "Ref" or tag.get("dk") != "enum" or not tag.get("qn"):
+        return None
+    for a_, p_ in zip(c["a"][1:], fn.params[1:]):
+        a0 = strip_cast(a_)
+        if not (a0.get("k") == "Ref" and a0.get("dk") == "param" and a0.get("d") == p_["d"]):
+            return None
+    return tag["qn"]
+
+
+_MODE_GROUPS = {}
+
+
+def mode_groups(fn):
+    """the dispatch of a read_from / write_out overload over its FileMode parameter as [(set of enumerators | {'default'}, [statements])]:
+    a switch, an if / else-if chain, or a sequence of terminating ifs; a case that only forwards to the function itself with another
+    constant mode is merged into that mode's group.  None if no such dispatch is recognised."""
+    if id(fn) in _MODE_GROUPS:
+        return _MODE_GROUPS[id(fn)]
+    sw = mode_switch(fn)
+    groups = None
+
+    def is_mode(x):
+        return x is not None and x.get("k") == "Ref" and x.get("dk") == "param" and "FileMode" in fn.type(x.get("t"))
+    # the mode parameter is re-assigned (`if(mode == fm_binary) mode = fm_dv;`): which cases a label reaches is not modelled
+    remapped = any((n.get("k") == "Assign" and is_mode(strip_cast(n["lhs"]))) or
+                   (n.get("k") == "Var" and "FileMode" in fn.type(n.get("t")) and n.get("init") is not None and not is_mode(strip_cast(n["init"]))
+                    and strip_cast(n["init"]).get("dk") != "enum") for n in fn.nodes())
+    if remapped:
+        _MODE_GROUPS[id(fn)] = None
+        return None
+    if sw is not None:
+        groups = switch_groups(sw)
+        # modes handled by terminating ifs in front of the switch belong to the dispatch as well
+        top = flat_statements(stmts_of(fn.body))
+        if any(x is sw for x in top):
+            pre = top[:[i_ for i_, x in enumerate(top) if x is sw][0]]
+            extra = []
+            for x in pre:
+                if x.get("k") == "If" and any(is_mode(y) for y in walk(x.get("c"))):
+                    labs = norm_c05.enum_tests(x.get("c"), is_mode)
+                    if labs is None or x.get("else") is not None or not norm_c05._terminates(stmts_of(x.get("then"))):
+                        groups = None
+                        break
+                    extra.append((set(q for q, _ in labs), stmts_of(x.get("then"))))
+            if groups is not None:
+                groups = extra + groups
+        elif any(x.get("k") == "If" and any(is_mode(y) for y in walk(x.get("c"))) for x in walk(fn.body)):
+            groups = None
+    else:
+        r = norm_c05.if_chain_groups(flat_statements(stmts_of(fn.body)), is_mode)
+        if r is not None:
+            groups = r[0]
+    if groups is not None:
+        merged = [(set(ls), list(st)) for ls, st in groups]
+        for _ in range(4):
+            changed = False
+            for gi, (ls, st) in enumerate(merged):
+                tgt = _self_forward(fn, st) if "default" not in ls else None
+                if tgt is None or tgt in ls:
+                    continue
+                for gj, (ls2, st2) in enumerate(merged):
+                    if gj != gi and tgt in ls2:
+                        merged[gj] = (ls2 | ls, st2)
+                        del merged[gi]
+                        changed = True
+                        break
+                if changed:
+                    break
+            if not changed:
+                break
+        groups = merged
+    _MODE_GROUPS[id(fn)] = groups
+    return groups
+
+
+def value_groups(fn, is_scrutinee):
+    """dispatch of fn over one value (a parameter, sizeof(T)): the single switch on it, or an if chain / sequence of terminating ifs comparing
+    it with constants -> ([(labels, statements)], label -> integer value) or None"""
+    sws = [n for n in walk(fn.body) if n.get("k") == "Switch" and is_scrutinee(strip_cast(n.get("c")))]
+    if len(sws) == 1:
+        vals = {}
+        for n in walk(sws[0]):
+            if n.get("k") == "Case":
+                v = strip_cast(n.get("v"))
+                if v is not None and v.get("v") is not None:
+                    try:
+                        vals[v.get("qn") or render(v)] = int(v["v"])
+                    except (TypeError, ValueError):
+                        pass
+        return switch_groups(sws[0]), vals
+    if sws:
+        return None
+    r = norm_c05.if_chain_groups(flat_statements(stmts_of(fn.body)), is_scrutinee)
+    if r is None:
+        return None
+    vals = {}
+    for q, v in r[1].items():
+        try:
+            vals[q] = int(v)
+        except (TypeError, ValueError):
+            pass
+    return r[0], vals
+
+
 def serial_calls(stmts, name):
     out = []
     for s in stmts:
@@ -1738,11 +1864,10 @@ def check_vocabulary(ck, facts):
             ck.incomplete("E12.mode-sets", "%s: %s(FileMode, stream) is instantiated by the driver but %s(FileMode, stream) is not" % (
                 sc, "write_out" if fw else "read_from", "read_from" if fw else "write_out"))
             continue
-        sw, sr = mode_switch(fw), mode_switch(fr)
-        if sw is None or sr is None:
-            ck.incomplete("E12.mode-sets", "%s: no switch over the FileMode parameter in %s" % (sc, "write_out" if sw is None else "read_from"))
+        gw, gr = mode_groups(fw), mode_groups(fr)
+        if gw is None or gr is None:
+            ck.incomplete("E12.mode-sets", "%s: no dispatch (switch / if chain) over the FileMode parameter recognised in %s" % (sc, "write_out" if gw is None else "read_from"))
             continue
-        gw, gr = switch_groups(sw), switch_groups(sr)
         mw = {l: i for i, (ls, _) in enumerate(gw) for l in ls if l != "default"}
         mr = {l: i for i, (ls, _) in enumerate(gr) for l in ls if l != "default"}
         for m in sorted(set(mw) | set(mr)):
@@ -1843,7 +1968,25 @@ def words_written(fn):
                 if ini is not None and ini.get("a"):
                     nbytes = (L.sym(ini["a"][0], State()), n.get("l"))
     if not hdr or nbytes is None:
-        return None
+        # word by word: stream.write((const char*)&word, sizeof(T)) with `word` a local holding a constant / a count
+        hdr, tot, line = {}, sp.Integer(0), None
+        for n in fn.nodes():
+            if n.get("k") == "MCall" and n.get("n") == "write" and len(n.get("a", [])) == 2 and "ostream" in (n.get("callee") or ""):
+                t = strip_cast(n["a"][0])
+                if t.get("k") == "Un" and t.get("op") == "&" and strip_cast(t["e"]).get("k") == "Ref" and strip_cast(t["e"]).get("dk") == "local":
+                    d = strip_cast(t["e"])["d"]
+                    v = through_consts(fn, strip_cast(t["e"]))
+                    val = str(int(v["v"])) if v is not None and v.get("v") is not None and v.get("k") in ("Int", "Ref") else L.canon(strip_cast(t["e"]))
+                    unit = re.sub(r"^const\s+", "", fn.type(L.decl[d]["t"]) or "") if d in L.decl else "?"
+                    so = [x for x in walk(n["a"][1]) if x.get("k") == "SizeOf" and x.get("type")]
+                    if len(so) == 1:
+                        unit = so[0]["type"]
+                    hdr[len(hdr)] = (val, unit, n.get("l"))
+                    tot = tot + L.sym(n["a"][1], State())
+                    line = line or n.get("l")
+        if not hdr:
+            return None
+        return hdr, tot, line
     return hdr, nbytes[0], nbytes[1]
 
 
@@ -1857,16 +2000,34 @@ def words_read(fn):
             t = strip_cast(n["a"][0])
             if t.get("k") == "Un" and t.get("op") == "&" and strip_cast(t["e"]).get("k") == "Ref":
                 reads.append([strip_cast(t["e"])["d"], L.sym(n["a"][1], State()), None, n.get("l"), strip_cast(t["e"]).get("n")])
+    def require(c, pol):
+        """the routine only continues when (c == pol): record `var == constant` requirements"""
+        c = through_consts(fn, c)
+        if c is None:
+            return
+        if c.get("k") == "Un" and c.get("op") == "!":
+            return require(c["e"], not pol)
+        if c.get("k") == "Bin" and c.get("op") in ("==", "!=") and (c["op"] == "==") == pol:
+            l, r = strip_cast(c["lhs"]), strip_cast(c["rhs"])
+            for a, b in ((l, r), (r, l)):
+                if a.get("k") == "Ref" and b.get("v") is not None and b.get("k") in ("Int", "Ref"):
+                    for rd in reads:
+                        if rd[0] == a.get("d"):
+                            rd[2] = str(int(b["v"]))
+        if c.get("k") == "Bin" and ((c.get("op") == "&&" and pol) or (c.get("op") == "||" and not pol)):
+            require(c["lhs"], pol)
+            require(c["rhs"], pol)
+
+    def aborts(br):
+        return br is not None and any(x.get("noreturn") or x.get("k") == "Throw" for x in walk(br) if is_call(x) or x.get("k") == "Throw")
     for n in fn.nodes():
         if n.get("k") == "If":
-            c = strip_cast(n["c"])
-            if c.get("k") == "Bin" and c.get("op") == "!=" and any(x.get("noreturn") for x in walk(n.get("then")) if is_call(x)):
-                l, r = strip_cast(c["lhs"]), strip_cast(c["rhs"])
-                for a, b in ((l, r), (r, l)):
-                    if a.get("k") == "Ref" and b.get("v") is not None and b.get("k") in ("Int", "Ref"):
-                        for rd in reads:
-                            if rd[0] == a.get("d"):
-                                rd[2] = str(int(b["v"]))
+            if aborts(n.get("then")) and not aborts(n.get("else")):
+                require(n["c"], False)
+            elif aborts(n.get("else")) and not aborts(n.get("then")):
+                require(n["c"], True)
+        elif n.get("k") == "Call" and strip_targs(n.get("callee", "") or "") == "FEAT::assertion" and n.get("a"):
+            require(n["a"][0], True)
     return reads
 
 
@@ -1902,22 +2063,76 @@ def check_meta_vector_magic(ck, facts):
         fw, (hdr, nbytes, wl) = W
         fr, reads = R
         tot = sum((r[1] for r in reads), sp.Integer(0))
-        ck.ob("E12.magic", "%s/header-bytes" % sc, seq(tot - nbytes), "writer emits %s header bytes, reader consumes %s before the first sub-vector" % (sp.sstr(nbytes), sp.sstr(tot)), fr.file, reads[0][3])
+        # widths are compared as numbers: sizeof(unsigned long) and sizeof(std::uint64_t) are the same 8 bytes
+        szval = {}
+        for f_ in (fw, fr):
+            for x in f_.nodes():
+                if x.get("k") == "SizeOf" and x.get("type") and x.get("v"):
+                    szval[symbol("sz[%s]" % x["type"])] = int(x["v"])
+        for t_, w_ in INT_WIDTH.items():
+            szval.setdefault(symbol("sz[%s]" % t_), w_)
+        num = lambda e_: sp.sympify(e_).subs(szval)
+        ck.ob("E12.magic", "%s/header-bytes" % sc, seq(num(tot) - num(nbytes)), "writer emits %s header bytes, reader consumes %s before the first sub-vector" % (sp.sstr(nbytes), sp.sstr(tot)), fr.file, reads[0][3])
         for k, rd in enumerate(reads):
             if rd[2] is None:
                 continue
             wv = hdr.get(k)
-            ok = wv is not None and wv[0] == rd[2] and seq(rd[1] - symbol("sz[%s]" % wv[1]))
+            ok = wv is not None and wv[0] == rd[2] and seq(num(rd[1]) - num(symbol("sz[%s]" % wv[1])))
             ck.ob("E12.magic", "%s/word%d" % (sc, k), ok, "reader requires word %d == %s, writer stores %s" % (k, rd[2], wv[0] if wv else "nothing"), fr.file, rd[3],
                   sample={"word": k, "reader": rd[2], "writer": wv[0] if wv else None})
 
 
-def header_literals(stmts):
+def header_literals(stmts, fn=None):
+    """'%%MatrixMarket ...' banners in the statements: -> [(text, line, complete?)].  A banner streamed in pieces
+    (`file << "%%MatrixMarket matrix coordinate real " << (symmetric ? "symmetric" : "general") << "\n"`) is assembled from the pieces of
+    the << chain (string literals, constant string locals, conditional expressions over literals -> one banner per alternative); a piece
+    that is none of these makes the banner incomplete (its text is only a prefix)."""
     out = []
+    in_chain = set()
+
+    def alts(x):
+        x = through_consts(fn, x) if fn is not None else strip_cast(x)
+        while x is not None and x.get("k") in ("Construct", "TempObj") and len(x.get("a", [])) == 1:
+            x = strip_cast(x["a"][0])
+        if x is None:
+            return None
+        if x.get("k") == "Str":
+            return [str(x["v"])]
+        if x.get("k") == "Cond":
+            a, b = alts(x["then"]), alts(x["else"])
+            if a is not None and b is not None:
+                return a + b
+        return None
     for s in stmts:
         for n in walk(s):
-            if n.get("k") == "Str" and str(n.get("v", "")).startswith("%%MatrixMarket"):
-                out.append((str(n["v"]).strip(), n.get("l")))
+            if n.get("k") == "OpCall" and n.get("op") == "<<" and id(n) not in in_chain:
+                items = flatten_chain(n)
+                for y in walk(n):
+                    if y.get("k") == "OpCall" and y.get("op") == "<<":
+                        in_chain.add(id(y))
+                start = [i for i, it in enumerate(items) if strip_cast(it).get("k") == "Str" and str(strip_cast(it).get("v", "")).startswith("%%MatrixMarket")]
+                if not start:
+                    continue
+                texts, complete = [""], True
+                for it in items[start[0]:]:
+                    a = alts(it)
+                    if a is None:
+                        complete = False
+                        break
+                    texts = [t + x for t in texts for x in a]
+                    if all("\n" in t for t in texts):
+                        break
+                for t in texts:
+                    for y in walk(items[start[0]]):
+                        in_chain.add(id(y))
+                    out.append((t.split("\n")[0].strip(), n.get("l"), complete))
+                for it in items[start[0]:]:
+                    for y in walk(it):
+                        in_chain.add(id(y))
+    for s in stmts:
+        for n in walk(s):
+            if n.get("k") == "Str" and id(n) not in in_chain and str(n.get("v", "")).startswith("%%MatrixMarket"):
+                out.append((str(n["v"]).split("\n")[0].strip(), n.get("l"), True))
     return out
 
 
@@ -1928,10 +2143,9 @@ def check_text_headers(ck, facts):
     rd = stream_overloads(facts, "read_from", "istream")
     pairs = []
     for cls in sorted(set(wr) & set(rd)):
-        sw, sr = mode_switch(wr[cls]), mode_switch(rd[cls])
-        if sw is None or sr is None:
+        gw, gr = mode_groups(wr[cls]), mode_groups(rd[cls])
+        if gw is None or gr is None:
             continue
-        gw, gr = switch_groups(sw), switch_groups(sr)
         for ls, st in gw:
             for ls2, st2 in gr:
                 if ls & ls2 and "default" not in ls:
@@ -1950,13 +2164,16 @@ def check_text_headers(ck, facts):
             continue
         pairs.append((short_cls(cls), wf[cls], [wf[cls].body], rf[cls], [rf[cls].body]))
     for key, fw, stw, fr, str_ in pairs:
-        lw, lr = header_literals(stw), header_literals(str_)
+        lw, lr = header_literals(stw, fw), header_literals(str_, fr)
         if not lw or not lr:
             continue
-        for lit, line in lw:
-            ok = any(r in lit for r, _ in lr)
-            ck.ob("E12.text-banner", "%s/%s" % (key, lit.split()[-1] if lit.split() else lit), ok,
-                  "writer emits '%s'; reader accepts %s" % (lit, [r for r, _ in lr]), fw.file, line)
+        for lit, line, complete in lw:
+            ok = any(r in lit for r, _, _ in lr)
+            bkey = "%s/%s" % (key, lit.split()[-1] if lit.split() else lit)
+            if not ok and (not complete or not all(c_ for _, _, c_ in lr)):
+                ck.incomplete("E12.text-banner", "%s: the banner is assembled from pieces the analysis cannot evaluate (writer '%s...', reader %s)" % (bkey, lit, [r for r, _, _ in lr]))
+                continue
+            ck.ob("E12.text-banner", bkey, ok, "writer emits '%s'; reader accepts %s" % (lit, [r for r, _, _ in lr]), fw.file, line)
 
 
 # -------------------------------------------------------------------------------------------------
@@ -2048,11 +2265,33 @@ def rows_loop(st, fn=None):
         i0 = strip_cast(i0["a"][0])
     if i0 is None or i0.get("k") != "Int" or int(i0["v"]) != 0:
         return None
-    if not (cond is not None and cond.get("k") == "Bin" and cond.get("op") == "<" and strip_cast(cond["lhs"]).get("d") == v["d"] and is_this_call(cond["rhs"], ("rows", "_rows"), fn)):
+    if cond is None or cond.get("k") != "Bin" or cond.get("op") not in ("<", "!=", ">"):
         return None
-    if not (inc is not None and inc.get("k") == "Un" and inc.get("op") == "++" and strip_cast(inc["e"]).get("d") == v["d"]):
+    cl, cr = (cond["lhs"], cond["rhs"]) if cond["op"] != ">" else (cond["rhs"], cond["lhs"])
+    if cond["op"] == "!=" and strip_cast(cr).get("k") == "Ref" and strip_cast(cr).get("d") == v["d"]:
+        cl, cr = cr, cl
+    if not (strip_cast(cl).get("k") == "Ref" and strip_cast(cl).get("d") == v["d"] and is_this_call(cr, ("rows", "_rows"), fn)):
+        return None
+    if norm_c05._advance_of(inc) != v["d"]:
+        return None
+    if any(norm_c05._advance_of(x) == v["d"] or (x.get("k") == "Assign" and strip_cast(x["lhs"]).get("k") == "Ref" and strip_cast(x["lhs"]).get("d") == v["d"]) for x in walk(st.get("body"))):
         return None
     return v["d"]
+
+
+def own_induction(st):
+    """decl id of the variable a for loop declares in its init and advances in its increment (whatever the bound is), else None"""
+    if st.get("k") != "For":
+        return None
+    ini = st.get("init")
+    if ini is None or ini.get("k") != "Decl":
+        return None
+    ds = [v["d"] for v in ini["vars"]]
+    for x in norm_c05._comma_list(st.get("inc")):
+        d = norm_c05._advance_of(x)
+        if d in ds:
+            return d
+    return None
 
 
 def check_rowptr_builders(ck, facts):
@@ -2089,6 +2328,7 @@ def check_rowptr_builders(ck, facts):
 
         # locals incremented inside loops that do not range over the rows: ordinals of that iteration
         ordinals = {}
+        unknown_index = {}
         for n in f.nodes():
             if n.get("k") == "Un" and n.get("op") == "++":
                 e = strip_cast(n["e"])
@@ -2096,8 +2336,14 @@ def check_rowptr_builders(ck, facts):
                     loops = enclosing(n, ("For", "ForRange", "While", "Do"))
                     if loops:
                         inner = loops[0]
-                        if rows_loop(inner, f) != e["d"]:
-                            ordinals[e["d"]] = inner
+                        if rows_loop(inner, f) == e["d"]:
+                            continue
+                        if own_induction(inner) == e["d"]:
+                            # the induction variable of an index loop whose bound is not recognised as rows(): what it ranges over is unknown
+                            # (it may well be the rows, through an alias of the extent) - no verdict from it
+                            unknown_index[e["d"]] = inner
+                            continue
+                        ordinals[e["d"]] = inner
         nz_cursor = set()
         for a in ("col_ind", "val"):
             for s in stores.get(a, []):
@@ -2145,16 +2391,19 @@ def check_rowptr_builders(ck, facts):
                 ck.incomplete("E2.rowptr-coverage", "%s: no loop over [0, rows()) storing row_ptr[row] recognised (filled by an unmodelled construct?)" % key)
         else:
             s, lp, off = loop_store
-            body = stmts_of(lp["body"])
-            uncond = False
+            body = flat_statements(stmts_of(lp["body"]))
+            uncond, skipped = False, False
             for b in body:
                 if b is s:
                     uncond = True
                     break
-                if any(x.get("k") in ("Continue", "Break", "Return") for x in walk(b)):
+                if any(x.get("k") in ("Continue", "Break", "Return") for x in walk(b)) or any(x is s for x in walk(b)):
+                    skipped = any(x.get("k") in ("Continue", "Break", "Return") for x in walk(b)) and not any(x is s for x in walk(b))
                     break
             other = end_store if off == 0 else zero_store
-            if uncond and other is None:
+            if not uncond and not skipped:
+                ck.incomplete("E2.rowptr-coverage", "%s: the store row_ptr[i] is nested in another statement of the row loop; whether it runs on every iteration is not established" % key)
+            elif uncond and other is None:
                 ck.incomplete("E2.rowptr-coverage", "%s: the store of the %s slot of row_ptr was not recognised" % (key, "end" if off == 0 else "first"))
             else:
                 ck.ob("E2.rowptr-coverage", key, uncond, ("row_ptr[%s] is stored on every iteration of the loop over [0, rows()) and row_ptr[%s] after it" % ("i" if off == 0 else "i+1", "rows()" if off == 0 else "0")) if uncond else
@@ -2186,39 +2435,91 @@ def check_rowptr_builders(ck, facts):
                 src_c = render(strip_cast(src))
                 guard = None
 
-                def key_test(cnd, op):
-                    for y in walk(cnd):
-                        if y.get("k") == "Bin" and y.get("op") == op:
-                            sides = [strip_cast(y["lhs"]), strip_cast(y["rhs"])]
-                            if any(z.get("k") == "Ref" and z.get("d") == lvd for z in sides) and any(
-                                    z.get("k") == "Member" and z.get("n") == "first" and render(strip_cast(z.get("b"))) == src_c for z in sides):
+                def key_rel(cnd, pol):
+                    """what (cnd == pol) says about `key == i`: True (implies it), False (implies key != i), None (nothing)"""
+                    y = through_consts(f, cnd)
+                    if y is None:
+                        return None
+                    if y.get("k") == "Un" and y.get("op") == "!":
+                        return key_rel(y["e"], not pol)
+                    if y.get("k") == "Bin" and y.get("op") in ("==", "!="):
+                        sides = [through_consts(f, y["lhs"]), through_consts(f, y["rhs"])]
+                        if any(z.get("k") == "Ref" and z.get("d") == lvd for z in sides) and any(
+                                z.get("k") == "Member" and z.get("n") == "first" and render(strip_cast(z.get("b"))) == src_c for z in sides):
+                            return (y["op"] == "==") == pol
+                        return None
+                    if y.get("k") == "Bin" and y.get("op") in ("&&", "||"):
+                        ra, rb = key_rel(y["lhs"], pol), key_rel(y["rhs"], pol)
+                        conj = (y["op"] == "&&") == pol       # (a && b) true, or (a || b) false: both parts hold with polarity pol
+                        if conj:
+                            if True in (ra, rb):
                                 return True
+                            if False in (ra, rb):
+                                return False
+                            return None
+                        # one of the parts holds: the relation must follow from each of them
+                        if ra is True and rb is True:
+                            return True
+                        # `iterator at end` or `key != i`: the entries of the node whose key is i are never stored
+                        bad = [r_ is False or at_end(p_, pol) for r_, p_ in ((ra, y["lhs"]), (rb, y["rhs"]))]
+                        if all(bad) and False in (ra, rb):
+                            return False
+                        return None
+                    return None
+
+                def at_end(cnd, pol):
+                    """(cnd == pol) says that the row iterator is the end iterator"""
+                    y = through_consts(f, cnd)
+                    if y is None:
+                        return False
+                    if y.get("k") == "Un" and y.get("op") == "!":
+                        return at_end(y["e"], not pol)
+                    if y.get("k") in ("Bin", "OpCall") and y.get("op") in ("==", "!="):
+                        l_, r_ = (y["lhs"], y["rhs"]) if y.get("k") == "Bin" else (y["a"][0], y["a"][1])
+                        sides = [strip_cast(l_), strip_cast(r_)]
+                        if any(z.get("k") == "Ref" and z.get("d") == src0.get("d") for z in sides) and any(z.get("k") == "MCall" and z.get("n") in ("end", "cend") for z in sides):
+                            return (y["op"] == "==") == pol
                     return False
+                wrong = None
                 # form 1: keyed lookup  it = container.find(i)
                 if src0.get("k") == "Ref" and src0.get("dk") == "local":
                     ini = const_inits(f).get(src0["d"])
                     ini = strip_cast(ini) if ini is not None else None
                     if ini is not None and ini.get("k") == "MCall" and ini.get("n") == "find" and ini.get("a") and strip_cast(ini["a"][0]).get("d") == lvd:
                         guard = "looked up with find(i)"
-                # form 2: the inner loop is enclosed in `if(... key == i ...)`
+                # form 2: the inner loop is enclosed in `if(... key == i ...)` (then branch) or `if(... key != i ...) else` (else branch)
                 x_ = lp2
                 while guard is None and id(x_) in par and par[id(x_)] is not lp:
                     x_ = par[id(x_)]
-                    if x_.get("k") == "If" and any(y is lp2 for y in walk(x_.get("then"))) and key_test(x_["c"], "=="):
-                        guard = "enclosed in a test key == i"
+                    if x_.get("k") == "If":
+                        in_then = x_.get("then") is not None and any(y is lp2 for y in walk(x_.get("then")))
+                        rel_ = key_rel(x_["c"], in_then)
+                        if rel_ is True:
+                            guard = "enclosed in a test key == i"
+                        elif rel_ is False:
+                            wrong = "the entry loop at line %s is only reached when '%s' is %s, i.e. when the key differs from i" % (lp2.get("l"), render(x_["c"])[:70], "true" if in_then else "false")
                 # form 3: `if(... key != i) continue;` in front of the inner loop
-                for b in body:
+                for b in flat_statements(body):
                     if guard is not None or any(x is lp2 for x in walk(b)):
                         break
-                    if b.get("k") == "If" and any(x.get("k") == "Continue" for x in walk(b.get("then"))) and key_test(b["c"], "!="):
-                        guard = "skipped unless key == i"
+                    if b.get("k") == "If" and b.get("else") is None and any(x.get("k") == "Continue" for x in flat_statements(stmts_of(b.get("then")))):
+                        rel_ = key_rel(b["c"], False)
+                        if rel_ is True:
+                            guard = "skipped unless key == i"
+                        elif rel_ is False:
+                            wrong = "'if(%s) continue;' lets the entry loop run only when the key differs from i" % render(b["c"])[:70]
+                if guard is None and wrong is not None:
+                    ck.ob("E2.rowptr-kind", "%s/read_from/row-key" % sc, False, "the entries of the map node %s are stored into row i although its key is not i: %s" % (src_c, wrong), f.file, lp2.get("l"))
+                    continue
                 if guard is not None:
                     ck.ob("E2.rowptr-kind", "%s/read_from/row-key" % sc, True, "the entries of the map node %s are stored into row i only when its key equals i (%s)" % (src_c, guard), f.file, lp2.get("l"))
                 else:
                     sequential = src0.get("k") == "Ref" and any(x.get("k") in ("Un", "OpCall") and x.get("op") == "++" and strip_cast((x.get("a") or [x.get("e")])[0]).get("d") == src0.get("d") for x in walk(lp["body"]))
                     compared = any(y.get("k") == "Member" and y.get("n") == "first" and render(strip_cast(y.get("b"))) == src_c for y in walk(lp["body"]) if True) and any(
                         y.get("k") == "Bin" and y.get("op") in ("==", "!=", "<", ">", "<=", ">=") and any(z.get("k") == "Member" and z.get("n") == "first" for z in (strip_cast(y["lhs"]), strip_cast(y["rhs"]))) for y in walk(lp["body"]))
-                    if sequential and not compared:
+                    handed = src0.get("k") == "Ref" and any(x.get("k") in ("Call", "MCall") and any(strip_cast(a_).get("k") == "Ref" and strip_cast(a_).get("d") == src0.get("d")
+                                                                                                      for a_ in x.get("a", [])) for x in walk(lp["body"]))
+                    if sequential and not compared and not handed:
                         ck.ob("E2.rowptr-kind", "%s/read_from/row-key" % sc, False, "the entries of the map node %s, which is advanced once per row with entries, are stored into row i without any comparison of its key with i: "
                               "a row without entries receives the entries of the next non-empty row" % src_c, f.file, lp2.get("l"))
                     else:
@@ -2358,12 +2659,14 @@ def check_linearisation(ck, facts):
         if (fr.file, fr.line) in seen:
             continue
         seen.add((fr.file, fr.line))
-        sw, sr = mode_switch(fw), mode_switch(fr)
-        if sw is None or sr is None:
+        # while loops / post-increments / `!=` bounds of the entry loops are brought to for(i = 0; i < N; ++i) first
+        fw = norm_c05.normalized(facts, fw, inline=None, algorithms=False, loops=True)
+        gw_, gr_ = mode_groups(fw), mode_groups(fr)
+        if gw_ is None or gr_ is None:
             continue
         sc = strip_targs(short_cls(cls))
-        for ls, st in switch_groups(sw):
-            for ls2, st2 in switch_groups(sr):
+        for ls, st in gw_:
+            for ls2, st2 in gr_:
                 if not (ls & ls2) or "default" in ls:
                     continue
                 mode = "+".join(sorted(l.rsplit("::", 1)[-1] for l in ls))
@@ -2512,13 +2815,13 @@ def check_size_lines(ck, facts):
     wr = stream_overloads(facts, "write_out", "ostream")
     rd = stream_overloads(facts, "read_from", "istream")
     for cls in sorted(set(wr) & set(rd)):
-        sw, sr = mode_switch(wr[cls]), mode_switch(rd[cls])
-        if sw is None or sr is None:
+        gw_, gr_ = mode_groups(wr[cls]), mode_groups(rd[cls])
+        if gw_ is None or gr_ is None:
             continue
-        for ls, st in switch_groups(sw):
+        for ls, st in gw_:
             if not any(l.endswith("::fm_mtx") for l in ls):
                 continue
-            for ls2, st2 in switch_groups(sr):
+            for ls2, st2 in gr_:
                 if not (ls & ls2):
                     continue
                 roles = reader_size_tokens(rd[cls], st2)
@@ -2535,6 +2838,401 @@ def check_size_lines(ck, facts):
                               "token %d of the size line: reader takes it as %s %s, writer streams %s" % (k, kind, val, "%s %s" % wi if wi else "nothing"), wr[cls].file, wl,
                               sample={"token": k, "reader": [kind, val], "writer": list(wi) if wi else None})
 
+
+
+# -------------------------------------------------------------------------------------------------
+# clause 3b: coordinates of the entry lines of the coordinate text modes
+# -------------------------------------------------------------------------------------------------
+
+# stored index arrays whose entries are coordinates themselves: accessor -> dimension they index
+STORED_INDEX_DIM = {"col_ind": "col", "indices": "row"}
+
+
+def _const_cond(c):
+    """value of a condition over constants (template arguments already substituted), else None"""
+    c = strip_cast(c)
+    if c is None:
+        return None
+    if c.get("k") == "Bool":
+        return bool(c["v"])
+    if c.get("k") == "Un" and c.get("op") == "!":
+        v = _const_cond(c["e"])
+        return None if v is None else not v
+    if c.get("k") == "Bin" and c.get("op") in ("==", "!="):
+        try:
+            a, b = eval_int(c["lhs"], {}), eval_int(c["rhs"], {})
+        except (Unknown, KeyError, TypeError, ValueError):
+            return None
+        return (a == b) == (c["op"] == "==")
+    return None
+
+
+def accessor_extent(facts, call, depth=0):
+    """zero-argument accessor of this -> ('slot', k, factor): it returns this->_scalar_index.at(k) * factor (the branch a constant
+    `if(perspective_ == pod)` selects in this instantiation); ('const', v) for a constant; None if not of that form"""
+    call = strip_cast(call)
+    if call is None:
+        return None
+    if call.get("k") == "Int":
+        return ("const", int(call["v"]))
+    if call.get("k") != "MCall" or call.get("a") or obj_key(call.get("obj")) != "this" or depth > 3:
+        return None
+    g = norm_c05.callee_function(facts, call)
+    if g is None:
+        return None
+
+    def ret_of(stmts):
+        for s_ in stmts:
+            k = s_.get("k")
+            if k == "Block":
+                r = ret_of(s_.get("s", []))
+                if r is not None:
+                    return r
+            elif k == "If":
+                v = _const_cond(s_.get("c"))
+                if v is None:
+                    # `if(_scalar_index.size() > 0) return _scalar_index.at(0); else return 0;`: the non-zero alternative
+                    rt = ret_of(stmts_of(s_.get("then")))
+                    re_ = ret_of(stmts_of(s_.get("else"))) if s_.get("else") is not None else None
+                    if rt is not None and re_ is not None and rt != "?" and re_ != "?":
+                        if is_zero(re_):
+                            return rt
+                        if is_zero(rt):
+                            return re_
+                    return "?"
+                br = s_.get("then") if v else s_.get("else")
+                r = ret_of(stmts_of(br)) if br is not None else None
+                if r is not None:
+                    return r
+            elif k == "Return":
+                return s_.get("e")
+            elif k in ("For", "While", "Do", "Switch", "ForRange", "Try"):
+                return "?"
+        return None
+    e = ret_of(stmts_of(g.body))
+    if e is None or e == "?":
+        return None
+
+    def parse(x):
+        x = strip_cast(x)
+        while x is not None and x.get("k") in ("Construct", "TempObj") and len(x.get("a", [])) == 1:
+            x = strip_cast(x["a"][0])
+        if x is None:
+            return None
+        if x.get("k") == "MCall" and x.get("n") == "at" and this_member(x.get("obj"), ("_scalar_index",)) and strip_cast(x["a"][0]).get("k") == "Int":
+            return ("slot", int(strip_cast(x["a"][0])["v"]), 1)
+        if x.get("k") == "MCall" and not x.get("a") and obj_key(x.get("obj")) == "this":
+            return accessor_extent(facts, x, depth + 1)
+        if x.get("k") == "Bin" and x.get("op") == "*":
+            for a_, b_ in ((x["lhs"], x["rhs"]), (x["rhs"], x["lhs"])):
+                pa = parse(a_)
+                if pa is not None and pa[0] == "slot":
+                    try:
+                        return ("slot", pa[1], pa[2] * eval_int(b_, {}))
+                    except (Unknown, KeyError, TypeError, ValueError):
+                        return None
+        try:
+            return ("const", eval_int(x, {}))
+        except (Unknown, KeyError, TypeError, ValueError):
+            return None
+    return parse(e)
+
+
+class CoordEval:
+    """affine form of the integer expressions an entry line streams, over classified atoms (loop variables, stored indices)"""
+
+    def __init__(self, facts, fn):
+        self.facts, self.fn = facts, fn
+        self.par = parent_map(fn)
+        self.atoms = {}        # sympy symbol -> dict(kind=..., ...)
+        self.consts = const_inits(fn)
+        self.loopvar = {}      # decl -> For node
+        for n in fn.nodes():
+            if n.get("k") == "For" and n.get("init") is not None and n["init"].get("k") == "Decl":
+                for v in n["init"]["vars"]:
+                    self.loopvar[v["d"]] = (n, v)
+        # vectors filled by exactly one push_back: the k-th element read back is the pushed expression
+        self.pushed = {}
+        cnt = {}
+        for n in fn.nodes():
+            if n.get("k") == "MCall" and n.get("n") in ("push_back", "emplace_back") and len(n.get("a", [])) == 1:
+                o = strip_cast(n.get("obj")) if n.get("obj") is not None else None
+                if o is not None and o.get("k") == "Ref" and o.get("dk") == "local":
+                    cnt[o["d"]] = cnt.get(o["d"], 0) + 1
+                    self.pushed[o["d"]] = n
+        self.pushed = {d: n for d, n in self.pushed.items() if cnt[d] == 1}
+
+    def resolve(self, n):
+        n = strip_cast(n)
+        seen = 0
+        while n is not None and seen < 12:
+            if n.get("k") in ("Construct", "TempObj") and len(n.get("a", [])) == 1:
+                n = strip_cast(n["a"][0])
+            elif n.get("k") == "Ref" and n.get("dk") == "local" and n.get("d") in self.consts and n.get("d") not in self.loopvar:
+                n = strip_cast(self.consts[n["d"]])
+            else:
+                break
+            seen += 1
+        return n
+
+    def accessor_of(self, b):
+        """pointer expression -> name of the zero-argument accessor of this it comes from, else None"""
+        b = self.resolve(b)
+        if b is not None and b.get("k") == "MCall" and not b.get("a") and obj_key(b.get("obj")) == "this":
+            return b.get("n")
+        return None
+
+    def loop_kind(self, d):
+        """classification of a for-loop induction variable"""
+        lp, v = self.loopvar[d]
+        cond = strip_cast(lp.get("c"))
+        if not (cond is not None and cond.get("k") == "Bin" and cond.get("op") in ("<", "!=") and strip_cast(cond["lhs"]).get("d") == d):
+            return {"kind": "?", "why": "loop condition '%s'" % render(cond)}
+        if norm_c05._advance_of(lp.get("inc")) != d and d not in [norm_c05._advance_of(x) for x in norm_c05._comma_list(lp.get("inc"))]:
+            return {"kind": "?", "why": "loop increment '%s'" % render(lp.get("inc"))}
+        ini = self.resolve(v.get("init"))
+        bnd = self.resolve(cond["rhs"])
+        if is_zero(v.get("init")):
+            if bnd is not None and bnd.get("k") == "Cond":
+                # `(used_elements() > 0) ? rows() : 0`: the loop runs over the non-zero alternative or not at all
+                alts = [x for x in (self.resolve(bnd["then"]), self.resolve(bnd["else"])) if not is_zero(x)]
+                if len(alts) == 1:
+                    bnd = alts[0]
+            ext = accessor_extent(self.facts, bnd)
+            if ext is not None and ext[0] == "slot":
+                return {"kind": "ext", "slot": ext[1], "factor": ext[2], "loop": lp}
+            if ext is not None and ext[0] == "const":
+                return {"kind": "intra", "extent": ext[1], "loop": lp}
+            try:
+                return {"kind": "intra", "extent": eval_int(bnd, {}), "loop": lp}
+            except (Unknown, KeyError, TypeError, ValueError):
+                pass
+            if bnd is not None and bnd.get("k") == "MCall" and bnd.get("n") == "size" and not bnd.get("a"):
+                o = strip_cast(bnd.get("obj"))
+                if o is not None and o.get("k") == "Ref" and o.get("d") in self.pushed:
+                    return {"kind": "ordinal", "of": o["d"], "loop": lp}
+            return {"kind": "?", "why": "bound '%s'" % render(bnd)[:60]}
+        # i from row_ptr()[r] to row_ptr()[r + 1]
+        if ini is not None and ini.get("k") == "Index" and self.accessor_of(ini["b"]) == "row_ptr" and bnd is not None and bnd.get("k") == "Index" and self.accessor_of(bnd["b"]) == "row_ptr":
+            r0 = strip_cast(ini["idx"])
+            r1 = strip_cast(bnd["idx"])
+            if r0.get("k") == "Ref" and r1.get("k") == "Bin" and r1.get("op") == "+" and strip_cast(r1["lhs"]).get("d") == r0.get("d") and is_one_node(r1["rhs"]):
+                return {"kind": "nz", "row": r0["d"], "loop": lp}
+        return {"kind": "?", "why": "range '%s' .. '%s'" % (render(ini)[:40], render(bnd)[:40])}
+
+    def atom(self, key, info):
+        sy = symbol(key)
+        self.atoms[sy] = info
+        return sy
+
+    def lin(self, n, depth=0):
+        n = self.resolve(n)
+        if n is None or depth > 24:
+            raise Unknown("expression too deep")
+        k = n.get("k")
+        if k == "Int":
+            return sp.Integer(int(n["v"]))
+        if k == "Ref" and n.get("v") is not None and n.get("dk") in ("enum", "global", "smember", "tparam"):
+            return sp.Integer(int(n["v"]))
+        if k == "Bin" and n.get("op") in ("+", "-", "*"):
+            a, b = self.lin(n["lhs"], depth + 1), self.lin(n["rhs"], depth + 1)
+            return a + b if n["op"] == "+" else a - b if n["op"] == "-" else sp.expand(a * b)
+        if k == "Ref" and n.get("dk") == "local" and n.get("d") in self.loopvar:
+            return self.atom("v%s:%s" % (n["d"], n.get("n")), dict(self.loop_kind(n["d"]), d=n["d"], name=n.get("n")))
+        # stored index read: accessor()[i]
+        if k == "Index" or (k == "Un" and n.get("op") == "*" and not n.get("post")):
+            b, idx = (n["b"], n["idx"]) if k == "Index" else (n["e"], {"k": "Int", "v": "0"})
+            acc = self.accessor_of(b)
+            if acc is not None:
+                iv = self.lin(idx, depth + 1)
+                return self.atom("%s[%s]" % (acc, sp.sstr(iv)), {"kind": "stored", "accessor": acc, "index": iv})
+        # element of a vector filled by one push_back: the pushed expression, in the loops of the push
+        if (k == "MCall" and n.get("n") == "at" and len(n.get("a", [])) == 1) or (k == "OpCall" and n.get("op") == "[]" and len(n.get("a", [])) == 2):
+            o = strip_cast(n.get("obj") if k == "MCall" else n["a"][0])
+            if o is not None and o.get("k") == "Ref" and o.get("d") in self.pushed:
+                return self.lin(self.pushed[o["d"]]["a"][0], depth + 1)
+        raise Unknown("'%s' is not an affine expression over loop variables and stored indices" % render(n)[:60])
+
+
+def is_one_node(n):
+    n = strip_cast(n)
+    while n is not None and n.get("k") in ("Construct", "TempObj") and len(n.get("a", [])) == 1:
+        n = strip_cast(n["a"][0])
+    return n is not None and n.get("k") == "Int" and int(n["v"]) == 1
+
+
+def check_entry_coordinates(ck, facts):
+    """coordinate text modes: the (row, column) an entry line prints is the scalar position of the value it prints, in the coordinate
+    system the size line of the same writer announces: row = Fr * <row index over the native row extent> + <offset over [0, Fr)> + 1,
+    column = Fc * <stored column index of the same non-zero> + <offset over [0, Fc)> + 1, where Fr / Fc are the factors by which the
+    accessors streamed in the size line scale the native extents (1 for scalar containers, BlockHeight / BlockWidth for blocked ones),
+    and the value printed is the (row offset, column offset) entry of that non-zero's block"""
+    R = "E2.entry-coordinates"
+    wr = stream_overloads(facts, "write_out", "ostream")
+    seen = set()
+    for cls in sorted(wr):
+        f0 = wr[cls]
+        if (f0.file, f0.line, strip_targs(cls)) in seen and False:
+            continue
+        fw = norm_c05.normalized(facts, f0, inline=None, algorithms=False, loops=True)
+        groups = mode_groups(fw)
+        if groups is None:
+            continue
+        sc = short_cls(cls)
+        for ls, st in groups:
+            if "default" in ls:
+                continue
+            banners = [b for b in header_literals(st, fw) if "coordinate" in b[0]]
+            if not banners:
+                continue
+            mode = "+".join(sorted(l.rsplit("::", 1)[-1] for l in ls))
+            par = parent_map(fw)
+            lines = writer_size_lines(fw, st, raw=True)
+            CE = CoordEval(facts, fw)
+            # entry lines: << chains inside loops with at least three streamed values
+            chains, inner = [], set()
+            for s_ in st:
+                for n in walk(s_):
+                    if n.get("k") == "OpCall" and n.get("op") == "<<" and id(n) not in inner:
+                        for y in walk(n):
+                            if y is not n and y.get("k") == "OpCall" and y.get("op") == "<<":
+                                inner.add(id(y))
+                        x, in_loop = n, False
+                        while id(x) in par:
+                            x = par[id(x)]
+                            if x.get("k") in ("For", "While", "Do", "ForRange"):
+                                in_loop = True
+                        items = [it for it in flatten_chain(n)[1:] if strip_cast(it).get("k") != "Str"]
+                        if in_loop and len(items) >= 3:
+                            chains.append((n, items))
+            if not chains:
+                ck.incomplete(R, "%s/%s: no entry line (<< chain with row, column and value inside a loop) recognised in the coordinate-format writer" % (sc, mode))
+                continue
+            for li, (chain, items) in enumerate(chains):
+                key = "%s/%s/line%d" % (sc, mode, li)
+                # the size line in force for this entry line: the closest one in front of it (same branch)
+                cand = [(its, l_) for its, l_ in lines if (l_ or 0) <= (chain.get("l") or 0) and len(its) >= 2]
+                if not cand:
+                    ck.incomplete(R, "%s: no size line in front of the entry line" % key)
+                    continue
+                hdr = cand[-1][0]
+                exts = [accessor_extent(facts, through_consts(fw, hdr[0])), accessor_extent(facts, through_consts(fw, hdr[1]))]
+                if exts[0] is None or exts[1] is None:
+                    ck.incomplete(R, "%s: extent streamed in the size line ('%s', '%s') is not a scalar slot of the container times a constant" % (key, render(hdr[0])[:40], render(hdr[1])[:40]))
+                    continue
+                try:
+                    forms = [sp.expand(CE.lin(items[0])), sp.expand(CE.lin(items[1]))]
+                except Unknown as e:
+                    ck.incomplete(R, "%s: %s" % (key, e))
+                    continue
+                verdicts, notes, unknown = [], [], []
+                offs = {}
+                for dim, form, ext in (("row", forms[0], exts[0]), ("column", forms[1], exts[1])):
+                    if ext[0] == "const":
+                        # a one-column / one-row object: the coordinate is that constant
+                        ok = form.is_Integer and int(form) == ext[1]
+                        verdicts.append((ok, "%s coordinate %s, size line announces %s %s(s)" % (dim, sp.sstr(form), ext[1], dim)))
+                        continue
+                    slot, F = ext[1], ext[2]
+                    const = form.as_coeff_Add()[0] if not form.is_Integer else form
+                    terms = {sy: form.coeff(sy) for sy in form.free_symbols}
+                    if any(not sp.expand(form - const - sum(c * sy for sy, c in terms.items())) == 0 for _ in (0,)) or any(not c.is_Integer for c in terms.values()):
+                        unknown.append("%s coordinate '%s' is not affine" % (dim, sp.sstr(form)))
+                        continue
+                    major = [(sy, c) for sy, c in terms.items() if CE.atoms[sy]["kind"] in ("ext", "stored")]
+                    intra = [(sy, c) for sy, c in terms.items() if CE.atoms[sy]["kind"] == "intra"]
+                    other = [(sy, c) for sy, c in terms.items() if CE.atoms[sy]["kind"] not in ("ext", "stored", "intra")]
+                    if other:
+                        unknown.append("%s coordinate uses '%s' (%s)" % (dim, str(other[0][0]), CE.atoms[other[0][0]].get("why", CE.atoms[other[0][0]]["kind"])))
+                        continue
+                    if len(major) != 1:
+                        unknown.append("%s coordinate '%s' has %d index terms" % (dim, sp.sstr(form), len(major)))
+                        continue
+                    (msy, mc), info = major[0], CE.atoms[major[0][0]]
+                    # which index is it?
+                    if info["kind"] == "ext":
+                        if dim == "row":
+                            verdicts.append((info["slot"] == slot and info["factor"] == 1, "row index '%s' ranges over scalar slot %s (size line: slot %s)" % (info["name"], info["slot"], slot)))
+                        else:
+                            verdicts.append((info["slot"] == slot and info["factor"] == 1, "column index '%s' ranges over scalar slot %s (size line: slot %s)" % (info["name"], info["slot"], slot)))
+                    else:
+                        sd = STORED_INDEX_DIM.get(info["accessor"])
+                        if sd is None:
+                            verdicts.append((False, "%s coordinate is read from %s(), which does not hold %s indices" % (dim, info["accessor"], dim)) if info["accessor"] in ACCESSOR_KIND else None)
+                            if verdicts[-1] is None:
+                                verdicts.pop()
+                                unknown.append("%s coordinate is read from %s(), whose entries are not classified" % (dim, info["accessor"]))
+                                continue
+                        else:
+                            verdicts.append((sd == ("col" if dim == "column" else "row"), "%s coordinate is the %s index stored in %s()" % (dim, sd, info["accessor"])))
+                        offs[dim + "/nz"] = info["index"]
+                    verdicts.append((int(mc) == F, "%s index scaled by %s; the size line announces native extent * %s" % (dim, mc, F)))
+                    if F > 1 or intra:
+                        if len(intra) != 1:
+                            verdicts.append((False, "%s coordinate has %d offsets within a block of %s" % (dim, len(intra), F)))
+                        else:
+                            (isy, ic), iinfo = intra[0], CE.atoms[intra[0][0]]
+                            verdicts.append((int(ic) == 1 and iinfo["extent"] == F, "offset '%s' within the block runs over [0, %s) with stride %s; block extent in this dimension is %s" % (
+                                iinfo["name"], iinfo["extent"], ic, F)))
+                            offs[dim] = iinfo["d"]
+                    verdicts.append((int(const) == 1, "1-based: constant %s" % sp.sstr(const)))
+                # the stored column index and the value belong to the non-zero range of the row whose index is printed
+                rowvar = None
+                for sy in forms[0].free_symbols:
+                    if CE.atoms[sy]["kind"] == "ext":
+                        rowvar = CE.atoms[sy]["d"]
+                nzidx = offs.get("column/nz")
+                if nzidx is not None and rowvar is not None:
+                    syms = list(sp.sympify(nzidx).free_symbols)
+                    if len(syms) == 1 and sp.expand(nzidx - syms[0]) == 0 and CE.atoms[syms[0]]["kind"] == "nz":
+                        verdicts.append((CE.atoms[syms[0]]["row"] == rowvar, "the column index is read at a position of the non-zero range [row_ptr[r], row_ptr[r+1]) of the printed row r"))
+                    elif len(syms) == 1 and CE.atoms[syms[0]]["kind"] == "?":
+                        unknown.append("position '%s' of the stored column index: %s" % (sp.sstr(nzidx), CE.atoms[syms[0]].get("why")))
+                    else:
+                        unknown.append("position '%s' of the stored column index is not a loop variable over the non-zeros of the row" % sp.sstr(nzidx))
+                if nzidx is not None:
+                    vnodes = list(walk(CE.resolve(items[2]) if strip_cast(items[2]).get("k") == "Ref" else items[2]))
+                    for y in list(vnodes):
+                        # an element of a vector filled by one push_back stands for the pushed expression
+                        o_ = None
+                        if y.get("k") == "MCall" and y.get("n") == "at" and y.get("obj") is not None:
+                            o_ = strip_cast(y["obj"])
+                        elif y.get("k") == "OpCall" and y.get("op") == "[]" and len(y.get("a", [])) == 2:
+                            o_ = strip_cast(y["a"][0])
+                        if o_ is not None and o_.get("k") == "Ref" and o_.get("d") in CE.pushed:
+                            vnodes.extend(walk(CE.pushed[o_["d"]]["a"][0]))
+                    for y in vnodes:
+                        y0 = CE.resolve(y) if y.get("k") == "Ref" and y.get("dk") == "local" and y.get("d") not in CE.loopvar else y
+                        if y0 is not None and y0.get("k") == "Index" and CE.accessor_of(y0["b"]) in ("val", "elements"):
+                            try:
+                                vi = sp.expand(CE.lin(y0["idx"]))
+                            except Unknown:
+                                continue
+                            verdicts.append((sp.expand(vi - nzidx) == 0, "value read at position %s, column index at position %s of the non-zero arrays" % (sp.sstr(vi), sp.sstr(nzidx))))
+                # the value printed: block[row offset][column offset] of the same non-zero
+                vsub = []
+                for y in walk(items[2]):
+                    if y.get("k") == "OpCall" and y.get("op") == "[]" and len(y.get("a", [])) == 2 and re.match(r"^FEAT::Tiny::(Matrix|Vector)<", y.get("ccls") or ""):
+                        vsub.append(y)
+                if ("row" in offs or "column" in offs):
+                    mats = [y for y in vsub if (y.get("ccls") or "").startswith("FEAT::Tiny::Matrix<")]
+                    vecs = [y for y in vsub if (y.get("ccls") or "").startswith("FEAT::Tiny::Vector<") and any(strip_cast(y["a"][0]) is m_ for m_ in mats)]
+                    if len(mats) == 1 and len(vecs) == 1:
+                        i0, i1 = CE.resolve(mats[0]["a"][1]), CE.resolve(vecs[0]["a"][1])
+                        verdicts.append((i0.get("d") == offs.get("row") and i1.get("d") == offs.get("column"),
+                                         "value printed is block[%s][%s]; row / column offsets of the coordinates are the first / second subscript" % (render(i0), render(i1))))
+                    else:
+                        unknown.append("the block entry that is printed ('%s') is not block[y][x]" % render(items[2])[:60])
+                if unknown:
+                    bad = [t for ok_, t in verdicts if not ok_]
+                    if bad:
+                        ck.ob(R, key, False, "; ".join(bad), fw.file, chain.get("l"))
+                    else:
+                        ck.incomplete(R, "%s: %s" % (key, "; ".join(unknown)))
+                    continue
+                bad = [t for ok_, t in verdicts if not ok_]
+                ck.ob(R, key, not bad, "; ".join(bad) if bad else "; ".join(t for _, t in verdicts), fw.file, chain.get("l"),
+                      sample={"row": sp.sstr(forms[0]), "column": sp.sstr(forms[1]), "size-line": [list(map(str, e_)) for e_ in exts], "established": [t for _, t in verdicts]})
 
 # -------------------------------------------------------------------------------------------------
 # clause 4: checkpoints — append-writers vs offset-readers of byte streams
@@ -2844,7 +3542,7 @@ class StreamFn(LayoutFn):
                     if src[0].startswith("ADDR:"):
                         content = self.ival(self.addr_nodes[src[0]])
                     else:
-                        content = self.vals.get(var_of(src))
+                        content = self.var_value(var_of(src))
                     self.events.append({"kind": "patch", "pos": sp.expand(dst[1] - self.shift - self.start), "n": nbytes, "content": content, "line": s.get("l")})
                     return
                 if (src is not None and src[0] in ("ROOT", "BS")) or (dst is not None and dst[0] == "ROOT") or self.mentions_root(s):
@@ -2944,11 +3642,19 @@ class StreamFn(LayoutFn):
             ev = {"kind": "append", "n": n, "content": str(f[0]), "pos": self.appended, "line": s.get("l")}
             # char* p = (char*)&value; insert(end, p, p + sizeof(T)): the bytes of `value`
             if f[0].startswith("VAR:"):
-                ev["value"] = self.vals.get(int(f[0][4:]))
+                ev["value"] = self.var_value(int(f[0][4:]))
             elif f[0].startswith("ADDR:"):
                 ev["value"] = self.ival(self.addr_nodes[f[0]])
             self.events.append(ev)
         self.appended = self.appended + self.events[-1]["n"]
+
+    def var_value(self, d):
+        """value of an integer local whose bytes are copied into the stream; a local the evaluation has no value for is an opaque symbol"""
+        v = self.vals.get(d)
+        if v is None:
+            dv = self.decl.get(d)
+            v = symbol("local{%s}" % (dv["n"] if dv else d))
+        return v
 
     def do_patch_loop(self, s):
         """for(i = 0; i < N; ++i) root[snapshot + i] = p[i]   with p = (char*)&value          (a patch of a word appended earlier)
@@ -2998,7 +3704,7 @@ class StreamFn(LayoutFn):
                 raise Unknown("patch source '%s'" % render(r))
             content = None
             if src[0].startswith("VAR:"):
-                content = self.vals.get(int(src[0][4:]))
+                content = self.var_value(int(src[0][4:]))
             elif src[0].startswith("ADDR:"):
                 content = self.ival(self.addr_nodes[src[0]])
             self.events.append({"kind": "patch", "pos": sp.expand(self.ival(snap) - self.start), "n": self.ival(bound), "content": content, "line": s.get("l")})
@@ -3027,11 +3733,35 @@ def record_items(events):
     return items
 
 
+STREAM_KEEP = ("_collect_checkpoint_data", "_restore_checkpoint_data", "restore_object", "save", "load", "_save", "_load", "clear_input", "add_object",
+               "set_checkpoint_data", "restore_from_checkpoint_data", "get_checkpoint_size")
+
+
+def stream_inline_for(fn):
+    """helpers a checkpoint routine may be split into: functions of the same class (or free functions) defined in the same file;
+    never the routines the rules interpret themselves"""
+    def want(call, g):
+        if g.name in STREAM_KEEP or g.file != fn.file:
+            return False
+        return (not g.cls) or strip_targs(g.cls) == strip_targs(fn.cls)
+    return want
+
+
+_STREAM_WANT = {}
+
+
+def stream_norm(facts, f):
+    if f is None:
+        return None
+    w = _STREAM_WANT.setdefault(id(f), stream_inline_for(f))
+    return norm_c05.normalized(facts, f, inline=w, algorithms=False, loops=True)
+
+
 def check_checkpoint_control(ck, facts):
     fns = {}
     for f in facts.functions:
         if f.cls == "FEAT::Control::CheckpointControl" and f.tk != "pattern":
-            fns.setdefault(f.name, []).append(f)
+            fns.setdefault(f.name, []).append(stream_norm(facts, f) if f.name in ("_collect_checkpoint_data", "_restore_checkpoint_data", "restore_object", "save", "load") else f)
     col = (fns.get("_collect_checkpoint_data") or [None])[0]
     res = (fns.get("_restore_checkpoint_data") or [None])[0]
     rob = (fns.get("restore_object") or [None])[0]
@@ -3063,16 +3793,25 @@ def check_checkpoint_control(ck, facts):
         wl = [n for n in stmts_of(res.body) if n.get("k") == "While" or (n.get("k") == "For" and n.get("inc") is None)]
         if len(wl) != 1:
             raise Unknown("expected one loop over the records whose cursor is advanced in the body")
-        if wl[0].get("k") == "For":
-            ini = wl[0].get("init")
-            if not (ini is not None and ini.get("k") == "Decl" and len(ini["vars"]) == 1 and is_zero(ini["vars"][0].get("init"))):
-                raise Unknown("record loop does not start at offset 0")
         cur = None
         c = strip_cast(wl[0]["c"])
-        if c.get("k") == "Bin" and c.get("op") == "<":
+        if c is not None and c.get("k") == "Bin" and c.get("op") in ("<", "!=") and strip_cast(c["lhs"]).get("k") == "Ref":
             cur = strip_cast(c["lhs"]).get("d")
+            bnd = through_consts(res, c["rhs"])
+            if not (bnd is not None and bnd.get("k") == "MCall" and bnd.get("n") == "size" and Rd.root_name(bnd.get("obj")) == "ROOT"):
+                raise Unknown("record loop bound '%s' is not the size of the input array" % render(c["rhs"]))
         if cur is None:
             raise Unknown("record loop condition '%s'" % render(c))
+        # the cursor starts at offset 0: declared with 0 in the for-init, or before the loop without a modification in between
+        ini = wl[0].get("init") if wl[0].get("k") == "For" else None
+        if ini is not None:
+            if not (ini.get("k") == "Decl" and len(ini["vars"]) == 1 and ini["vars"][0]["d"] == cur and is_zero(ini["vars"][0].get("init"))):
+                raise Unknown("record loop does not start at offset 0")
+        else:
+            cx = norm_c05.Ctx(res.body)
+            v0 = cx.decl.get(cur)
+            if v0 is None or not is_zero(v0.get("init")) or any(cx.may_precede(m_, wl[0]) for m_ in cx.mods.get(cur, []) if not cx.inside(m_, wl[0])):
+                raise Unknown("record loop does not start at offset 0")
         Rd.vals[cur] = sp.Integer(0)
         Rd.exec_block(stmts_of(wl[0]["body"]))
         stride = Rd.vals[cur]
@@ -3121,7 +3860,7 @@ def check_checkpoint_control(ck, facts):
     lw = [it for it in items if data_item and seq(it["pos"] + it["n"] - data_item[0]["pos"])]
     for e in [x for x in Ro.events if x["kind"] == "read"]:
         ok = bool(lw) and seq(e["off"] - symbol("OFFSET")) and seq(lw[0]["n"] - e["n"])
-        if ok:
+        if ok and lw[0].get("value") is not None:
             bind2[symbol(e["var"])] = lw[0]["value"]
         ck.ob(R, "CheckpointControl/restore_object/data-length", ok, "reads %s bytes at the table offset + %s as the data length" % (sp.sstr(e["n"]), sp.sstr(e["off"] - symbol("OFFSET"))), rob.file, e["line"])
     for e in [x for x in Ro.events if x["kind"] == "slice"]:
@@ -3197,6 +3936,23 @@ def check_checkpoint_control(ck, facts):
         ck.incomplete(R, "CheckpointControl::save/load(BinaryStream&): %s" % e)
 
 
+def whole_object_updates(fn):
+    """constructs that replace or hand out the whole object (`*this = T()`, swap(*this, tmp), helper(*this)): they may reset every member"""
+    out = []
+    for n in fn.nodes():
+        if n.get("k") in ("Assign", "OpCall") and n.get("op") == "=":
+            l = strip_cast(n["lhs"] if n.get("k") == "Assign" else n["a"][0])
+            if l is not None and l.get("k") == "Un" and l.get("op") == "*" and strip_cast(l["e"]).get("k") == "This":
+                out.append(render(n)[:60])
+        elif n.get("k") in ("Call", "MCall"):
+            for a in n.get("a", []):
+                a0 = strip_cast(a)
+                if a0 is not None and (a0.get("k") == "This" or (a0.get("k") == "Un" and a0.get("op") == "*" and strip_cast(a0["e"]).get("k") == "This")):
+                    if strip_targs(n.get("callee", "") or "") != "FEAT::assertion":
+                        out.append(render(n)[:60])
+    return out
+
+
 def check_checkpoint_state(ck, facts):
     """typestate of the reader side of CheckpointControl: whatever a load leaves behind for restore_object must not survive into the next load"""
     R = "E7.load-state-reset"
@@ -3236,6 +3992,7 @@ def check_checkpoint_state(ck, facts):
             if n.get("k") == "MCall" and (n.get("obj") is None or strip_cast(n["obj"]).get("k") == "This"):
                 bodies += [g for g in facts.functions if g.tk != "pattern" and g.cls == clear[0].cls and g.qn == n.get("callee")][:1]
         for body in bodies:
+            unmodelled.extend(whole_object_updates(body))
             for n in body.nodes():
                 if n.get("k") == "MCall":
                     o = n.get("obj")
@@ -3332,6 +4089,7 @@ def check_meta_checkpoints(ck, facts):
         if (w.file, w.line) in seen_defs:
             continue
         seen_defs.add((w.file, w.line))
+        w, r, g = stream_norm(facts, w), stream_norm(facts, r), stream_norm(facts, g)
         general = any(x.get("k") == "MCall" and x.get("n") == "insert" for x in walk(w.body))
         sc = strip_targs(short_cls(cls)) + ("<First,Rest...>" if general else "<Last>")
         try:
@@ -3467,8 +4225,8 @@ def check_pack(ck, facts):
         for g in fns:
             if g.full == call.get("cfull"):
                 for n in g.nodes():
-                    if n.get("k") == "Return":
-                        so = [x for x in walk(n) if x.get("k") == "SizeOf"]
+                    if n.get("k") == "Return" and n.get("e") is not None:
+                        so = [x for x in walk(through_consts(g, n["e"])) if x.get("k") == "SizeOf"]
                         if len(so) == 1:
                             return int(so[0]["v"]), so[0]["type"]
         return None, None
@@ -3486,20 +4244,21 @@ def check_pack(ck, facts):
             f = d.get(nm)
             if f is None:
                 continue
-            sw = [n for n in walk(f.body) if n.get("k") == "Switch"]
-            if len(sw) != 1:
-                ck.incomplete("E12.pack-cases", "%s::%s: no single switch over the pack type" % (hs, nm))
+            ptp = [p_["d"] for p_ in f.params if "Pack::Type" in (f.type(p_["t"]) or "")]
+            vg = value_groups(f, lambda x: x is not None and x.get("k") == "Ref" and x.get("dk") == "param" and x.get("d") in ptp) if len(ptp) == 1 else None
+            if vg is None:
+                ck.incomplete("E12.pack-cases", "%s::%s: no single dispatch (switch / if chain) over the pack type parameter" % (hs, nm))
                 continue
             tab = {}
-            for ls, st in switch_groups(sw[0]):
+            for ls, st in vg[0]:
                 if "default" in ls:
                     continue
                 calls = [c for s_ in st for c in walk(s_) if c.get("k") == "Call" and re.search(r"::x(en|de)code$", c.get("callee", ""))]
                 for l in ls:
                     tab[l] = calls[0] if len(calls) == 1 else None
-            tables[nm] = (f, sw[0], tab)
+            tables[nm] = (f, vg[1], tab)
         if len(tables) == 2:
-            (fe, swe, te), (fd, swd, td) = tables["encode"], tables["decode"]
+            (fe, vale, te), (fd, vald, td) = tables["encode"], tables["decode"]
             for lab in sorted(set(te) | set(td)):
                 key = "%s/%s" % (hs, lab.rsplit("::", 1)[-1])
                 ce, cd = te.get(lab), td.get(lab)
@@ -3507,12 +4266,12 @@ def check_pack(ck, facts):
                     ck.incomplete("E12.pack-cases", "%s: the case does not consist of a single xencode/xdecode call" % key)
                     continue
                 if ce is None or cd is None:
-                    ck.ob("E12.pack-cases", key, False, "pack type handled by %s only: an array packed as this type cannot be %s" % ("encode" if ce is not None else "decode", "decoded" if ce is not None else "produced"), fe.file, swe.get("l"))
+                    ck.ob("E12.pack-cases", key, False, "pack type handled by %s only: an array packed as this type cannot be %s" % ("encode" if ce is not None else "decode", "decoded" if ce is not None else "produced"), fe.file, fe.line)
                     continue
-                val = None
-                for n in walk(swe):
-                    if n.get("k") == "Case" and (strip_cast(n["v"]).get("qn") == lab):
-                        val = int(strip_cast(n["v"])["v"])
+                val = vale.get(lab, vald.get(lab))
+                if val is None:
+                    ck.incomplete("E12.pack-cases", "%s: value of the enumerator not found" % key)
+                    continue
                 se, te_ = xsize(ce)
                 sd, td_ = xsize(cd)
                 try:
@@ -3520,18 +4279,21 @@ def check_pack(ck, facts):
                 except Unknown as e:
                     ck.incomplete("E12.pack-cases", "Pack::element_size: %s" % e)
                     continue
-                ok = se is not None and se == sd == want and te_ == td_
+                if se is None or sd is None:
+                    ck.incomplete("E12.pack-cases", "%s: the byte count xencode / xdecode return is not count * sizeof(one type)" % key)
+                    continue
+                ok = se == sd == want and te_ == td_
                 ck.ob("E12.pack-cases", key, ok, "encode converts to %s (%s bytes), decode reads %s (%s bytes), element_size(%s) = %s" % (te_, se, td_, sd, lab.rsplit("::", 1)[-1], want),
                       fd.file, cd.get("l"), sample={"type": lab, "encode": te_, "decode": td_, "element_size": want})
         f = d.get("deduct")
         if f is not None:
-            sw = [n for n in walk(f.body) if n.get("k") == "Switch"]
-            for ls, st in (switch_groups(sw[0]) if len(sw) == 1 else []):
+            vg = value_groups(f, lambda x: x is not None and x.get("k") == "SizeOf")
+            for ls, st in (vg[0] if vg is not None else []):
                 if "default" in ls:
                     continue
                 for l in ls:
                     rets = [strip_cast(x["e"]) for s_ in st for x in walk(s_) if x.get("k") == "Return"]
-                    if len(rets) != 1 or rets[0].get("v") is None:
+                    if len(rets) != 1 or rets[0].get("v") is None or not re.match(r"^\d+$", l):
                         continue
                     ok = element_size(int(rets[0]["v"])) == int(l)
                     ck.ob("E12.pack-cases", "%s/deduct/%s" % (hs, l), ok, "sizeof(T) = %s -> %s with element_size %s" % (l, rets[0].get("qn"), element_size(int(rets[0]["v"]))), f.file, rets[0].get("l"))
@@ -3703,6 +4465,20 @@ def obj_key(o):
     return render(o)
 
 
+_TOGETHER = {}
+
+
+def arrays_allocated_together(facts, cls):
+    """do the constructors of cls that leave _elements unallocated leave _indices unallocated too and vice versa (and with the same zero
+    parameters)?  Then a null test of any array accessor speaks for all arrays of the object."""
+    key = (id(facts), cls)
+    if key not in _TOGETHER:
+        a = sorted((c.full, c.line, sorted(sl.items())) for c, sl, _ in unallocated_states(facts, cls, SLOT_VECTORS[0]))
+        b = sorted((c.full, c.line, sorted(sl.items())) for c, sl, _ in unallocated_states(facts, cls, SLOT_VECTORS[1]))
+        _TOGETHER[key] = bool(a) and a == b
+    return _TOGETHER[key]
+
+
 def emptiness_polarity(cond, obj, vec, fn=None):
     c0 = strip_cast(cond)
     if fn is not None and c0 is not None and c0.get("k") == "Ref" and c0.get("dk") == "local":
@@ -3722,8 +4498,24 @@ def _emptiness_polarity(cond, obj, vec, fn=None):
         p = emptiness_polarity(c["e"], obj, vec, fn)
         return -p if p else None
 
+    def null_subject(x):
+        """x is the pointer of a nullable accessor of `obj` for the arrays `vec` (directly or through a constant local)"""
+        x = through_consts(fn, x) if fn is not None else strip_cast(x)
+        if x is None or x.get("k") != "MCall" or x.get("a") or fn is None or obj_key(x.get("obj")) != obj:
+            return False
+        v2 = nullable_accessors_cached(fn.facts, x.get("ccls") or "").get(x.get("n"))
+        if v2 is None:
+            return False
+        return v2 == vec or arrays_allocated_together(fn.facts, x.get("ccls") or "")
+    if null_subject(c):
+        return -1          # `if(ptr)`
+    if c.get("k") == "Bin" and c.get("op") in ("==", "!="):
+        for a_, b_ in ((c["lhs"], c["rhs"]), (c["rhs"], c["lhs"])):
+            if strip_cast(b_).get("k") == "Null" and null_subject(a_):
+                return 1 if c["op"] == "==" else -1
+
     def subject(x):
-        x = strip_cast(x)
+        x = through_consts(fn, x) if fn is not None else strip_cast(x)
         if x is None or x.get("k") != "MCall" or x.get("a"):
             return False
         o = x.get("obj")
@@ -3982,8 +4774,7 @@ def check_empty_containers(ck, facts):
         seen_defs.add((f.file, f.line))
         par = parent_map(f)
         cfg = f.cfg
-        sw = mode_switch(f)
-        groups = switch_groups(sw) if sw is not None else []
+        groups = mode_groups(f) or []
 
         def mode_of(n):
             for ls, st in groups:
@@ -3992,10 +4783,11 @@ def check_empty_containers(ck, facts):
             return "-"
         # ---- A: direct slot accesses
         for n in f.nodes():
-            if not (n.get("k") == "MCall" and n.get("n") == "at" and this_member(n.get("obj"), SLOT_VECTORS)):
+            sr_ = slot_ref(n, SLOT_VECTORS) if n.get("k") in ("MCall", "OpCall") else None
+            if sr_ is None:
                 continue
-            vec = strip_cast(n["obj"])["n"]
-            key = "%s/%s(%s)/%s.at(%s)" % (sc, f.name, mode_of(n), vec, render(n["a"][0]))
+            vec = sr_[0]
+            key = "%s/%s(%s)/%s.at(%s)" % (sc, f.name, mode_of(n), vec, sr_[1])
             pushes = [x for x in f.nodes() if x.get("k") == "MCall" and x.get("n") == "push_back" and this_member(x.get("obj"), (vec,))]
             tb = cfg_block_of(f, par, n)
             x = n
@@ -4012,7 +4804,7 @@ def check_empty_containers(ck, facts):
                   ("dominated by a push_back to %s in the same routine" % vec) if dom else
                   ("only reachable on the non-empty edge of '%s'" % render(guard)) if guard is not None else
                   "this->%s.at(%s) is reached without any emptiness guard, while %s leaves %s empty and the public accessor of the same class guards exactly this access (returns nullptr)" % (
-                      vec, render(n["a"][0]), short_cls(states[0].full), vec), f.file, n.get("l"))
+                      vec, sr_[1], short_cls(states[0].full), vec), f.file, n.get("l"))
         # ---- B: loops that subscript the pointer of a nullable accessor
         subs = nullable_subscripts(facts, f)
         loops = {}
@@ -4216,7 +5008,10 @@ def check_reset_state(ck, facts):
                         a_ = i_["init"].get("a", [i_["init"]]) if i_["init"].get("k") in ("Construct", "TempObj", "InitList") else [i_["init"]]
                         inits[i_["member"]] = "0" if (not a_ or all(is_zero(x) for x in a_)) else render(i_["init"])[:40]
         eff = reset_effects(facts, clr)
+        whole = whole_object_updates(clr)
         for m in sorted(evolve):
+            if whole and not [a for a in eff.get(m, []) if a[0] == "reset"]:
+                eff.setdefault(m, []).append(("unmodelled", whole[0]))
             key = "%s/clear/%s" % (sc, m)
             acts = eff.get(m, [])
             res = [a for a in acts if a[0] == "reset"]
@@ -4276,6 +5071,18 @@ def alloc_extent(L, f, n):
     return None
 
 
+def slot_ref(l, names):
+    """this->_vec.at(k) / this->_vec[k] with _vec in names -> (vector name, text of k), else None"""
+    l = strip_cast(l)
+    if l is None:
+        return None
+    if l.get("k") == "MCall" and l.get("n") == "at" and len(l.get("a", [])) == 1 and this_member(l.get("obj"), names):
+        return strip_cast(l["obj"])["n"], render(strip_cast(l["a"][0]))
+    if l.get("k") == "OpCall" and l.get("op") == "[]" and len(l.get("a", [])) == 2 and this_member(l["a"][0], names):
+        return strip_cast(l["a"][0])["n"], render(strip_cast(l["a"][1]))
+    return None
+
+
 def check_size_tables(ck, facts):
     """every member function of a Container-derived class that puts a freshly allocated array into this->_elements / this->_indices
     (push_back or replacement of a slot) records the extent of that allocation in the matching entry of _elements_size / _indices_size
@@ -4292,9 +5099,9 @@ def check_size_tables(ck, facts):
             if n.get("k") == "MCall" and n.get("n") == "push_back" and this_member(n.get("obj"), SLOT_VECTORS) and n.get("a"):
                 vec, kind, slot, src = strip_cast(n["obj"])["n"], "push", "", n["a"][0]
             elif n.get("k") == "Assign" and n.get("op") == "=":
-                l = strip_cast(n["lhs"])
-                if l.get("k") == "MCall" and l.get("n") == "at" and this_member(l.get("obj"), SLOT_VECTORS):
-                    vec, kind, slot, src = strip_cast(l["obj"])["n"], "slot", render(l["a"][0]), n["rhs"]
+                sr_ = slot_ref(n["lhs"], SLOT_VECTORS)
+                if sr_ is not None:
+                    vec, kind, slot, src = sr_[0], "slot", sr_[1], n["rhs"]
             if vec is None:
                 continue
             if L is None:
@@ -4328,12 +5135,23 @@ def check_size_tables(ck, facts):
                 if kind == "push" and x.get("k") == "MCall" and x.get("n") == "push_back" and this_member(x.get("obj"), (svec,)) and x.get("a"):
                     ups.append((x, L.canon(x["a"][0])))
                 if kind == "slot" and x.get("k") == "Assign" and x.get("op") == "=":
-                    l = strip_cast(x["lhs"])
-                    if l.get("k") == "MCall" and l.get("n") == "at" and this_member(l.get("obj"), (svec,)) and render(l["a"][0]) == slot:
+                    su_ = slot_ref(x["lhs"], (svec,))
+                    if su_ is not None and su_[1] == slot:
                         ups.append((x, L.canon(x["rhs"])))
             wholesale = [x for x in f.nodes() if x.get("k") == "MCall" and x.get("n") in ("assign", "swap", "resize") and this_member(x.get("obj"), (svec,))] + \
                         [x for x in f.nodes() if (x.get("k") == "Assign" or (x.get("k") == "OpCall" and x.get("op") == "=")) and this_member(x["lhs"] if x.get("k") == "Assign" else x["a"][0], (svec,))]
             passed = [x for x in f.nodes() if is_call(x) and any(this_member(a, (svec,)) for a in x.get("a", []))]
+            # a non-const member function of the same object may update the size table on behalf of this routine
+            for x in f.nodes():
+                if x.get("k") == "MCall" and not x.get("cconst") and (x.get("obj") is None or strip_cast(x["obj"]).get("k") == "This"):
+                    g_ = norm_c05.callee_function(facts, x)
+                    if g_ is f:
+                        continue
+                    if g_ is None:
+                        if (x.get("ccls") or "") == f.cls and x.get("n") not in ("clear", "assign"):
+                            passed.append(x)
+                    elif any(this_member(y, (svec,)) for y in g_.nodes()):
+                        passed.append(x)
             tb = cfg_block_of(f, par, n)
             if cfg is None or tb is None:
                 ck.incomplete(R, "%s: no control-flow graph for the routine" % key)
@@ -4584,6 +5402,10 @@ def declare_rules(ck, thorough):
     ck.rule("E12.magic", "the header words a meta vector writes in front of its sub-vector dumps (magic number, block count) are the ones its reader consumes and requires", 12)
     ck.rule("E12.text-banner", "every '%%MatrixMarket ...' banner a writer emits is accepted by the reader of the same class and mode", 12)
     ck.rule("E12.size-line", "the size line of the MatrixMarket modes is emitted in the order the reader parses it (rows columns [nnz] resp. size 1); breaks for: every non-square matrix", 10)
+    ck.rule("E2.entry-coordinates", "coordinate text modes (MatrixMarket coordinate): the row / column an entry line prints is Fr * <index over the native row extent> + <offset in "
+            "[0, Fr)> + 1 resp. Fc * <stored column index of the same non-zero> + <offset in [0, Fc)> + 1, with Fr / Fc the factors by which the extents streamed in the "
+            "size line of the same writer scale the native extents (BlockHeight / BlockWidth for blocked matrices, 1 otherwise), and the value printed is the "
+            "(row offset, column offset) entry of the block; breaks for: blocked matrices with BlockHeight != BlockWidth, any matrix when row and column are exchanged", 4)
     ck.rule("E2.linearisation", "a text reader that splits a running entry counter i into (i / E, i % E) divides by the extent of the dimension that receives i % E, and "
             "that is the dimension the writer of the same mode runs fastest (both extents taken from the parsed size line by role); blocked vectors divide the parsed length by "
             "the factor the writer multiplies with; breaks for: every non-square dense matrix", 3)
@@ -4619,7 +5441,8 @@ def declare_rules(ck, thorough):
     ck.rule("E7.nullable-deref", "every loop of an IO routine that subscripts the pointer of an accessor which returns nullptr for unallocated arrays "
             "(row_ptr/col_ind/val/elements/indices) has trip count zero in the array-free states the constructors establish (bound resolved through constant locals, "
             "conditional expressions and the scalar slot the bound accessor reads), or is only reachable on the non-empty edge of an emptiness test, or the arrays are "
-            "allocated earlier in the same routine; breaks for: matrices without entries created by the (rows, columns) constructor, vectors of length 0", 16)
+            "allocated earlier in the same routine; breaks for: matrices without entries created by the (rows, columns) constructor, vectors of length 0", 14)
+    # (16 on the pinned tree; obligations are grouped per innermost loop, so hoisting an accessor value out of an inner loop merges two of them)
 
 
 def serializer_instances(facts):
@@ -4646,6 +5469,7 @@ def run_on(ck, facts, primary):
         check_meta_vector_magic(ck, facts)
         check_text_headers(ck, facts)
         check_size_lines(ck, facts)
+        check_entry_coordinates(ck, facts)
         check_linearisation(ck, facts)
         check_rowptr_builders(ck, facts)
         check_checkpoint_control(ck, facts)
@@ -4682,7 +5506,7 @@ def run(tier):
             "_serialized_size are interpreted abstractly (positions as symbolic sums over the array counts, typed buffer views, alignment steps) on all four compression branches and the "
             "writer's and reader's header-slot bindings and segment sequences are compared; byte accounting of the allocation and of the length word; FileMode vocabularies and "
             "(tag, DT, IT) triples of all container classes; magic words and banners of the meta containers; index kinds and coverage of row_ptr in the MatrixMarket reader; record "
-            "layout of CheckpointControl and of the meta containers' checkpoint recursion; Pack case tables, loops and argument roles; emptiness guards of IO routines. "
-            "Not decided: bit identity and printed precision of values, behaviour of zlib/zfp, duplicate or malformed entries in text files, entry-line token order of the text modes, "
+            "layout of CheckpointControl and of the meta containers' checkpoint recursion; Pack case tables, loops and argument roles; emptiness guards of IO routines; scalar row / column coordinates of the entry lines of the coordinate text modes against the extents announced in the size line. "
+            "Not decided: bit identity and printed precision of values, behaviour of zlib/zfp, duplicate or malformed entries in text files, entry lines of the array (dense) text modes beyond the counter split, "
             "file-name arithmetic of nested meta matrices beyond the instantiated block counts, MPI file IO (DistFileIO).")
     return ck.finish(expl)
